@@ -52,6 +52,34 @@ theorem hash_congr_v4 (a b : Nat) (h : V4.eq a b = true) : V4.hash a = V4.hash b
   have : a = b := by simpa [V4.eq] using h
   rw [this]
 
+/-! ## increment / decrement, bit operations -/
+
+/-- `Internals::increment(IPv4Address&)`: next number modulo 2^32, and the returned flag says "wrapped around" -/
+theorem increment_numeric_v4 (a : Nat) (ha : V4.wf a) :
+    (V4.inc a).1 = (a + 1) % 4294967296 ∧ ((V4.inc a).2 = true ↔ a = 4294967295) ∧
+    (V4.dec a).1 = (a + 4294967296 - 1) % 4294967296 := by
+  refine ⟨V4.inc_val a ha, ?_, V4.dec_val a ha⟩
+  rw [V4.inc_flag a ha]; omega
+
+/-- `increment_buffer` / `decrement_buffer`: next / previous number modulo 256^n; the flag says "wrapped around" -/
+theorem increment_numeric (n : Nat) (a : Buf) (ha : WFB n a) :
+    WFB n (B.inc a).1 ∧ Spec.val (B.inc a).1 = (Spec.val a + 1) % 256 ^ n ∧
+    ((B.inc a).2 = true ↔ Spec.val a + 1 = 256 ^ n) ∧
+    WFB n (B.dec a).1 ∧ Spec.val (B.dec a).1 = (Spec.val a + 256 ^ n - 1) % 256 ^ n :=
+  ⟨(inc_spec n a ha).1, (inc_spec n a ha).2.1, (inc_spec n a ha).2.2, (dec_spec n a ha).1, (dec_spec n a ha).2⟩
+
+/-- `operator&`, `operator|`, `operator~` on buffers are the bitwise operations on the numbers -/
+theorem bitops_numeric (n : Nat) (a m : Buf) (ha : WFB n a) (hm : WFB n m) :
+    Spec.val (B.band a m) = Spec.val a &&& Spec.val m ∧ Spec.val (B.bor a m) = Spec.val a ||| Spec.val m ∧
+    Spec.val (B.bnot a) = Spec.card n - 1 - Spec.val a ∧
+    WFB n (B.band a m) ∧ WFB n (B.bor a m) ∧ WFB n (B.bnot a) := by
+  have hl : a.length = m.length := by rw [ha.1, hm.1]
+  obtain ⟨a1, a2, a3⟩ := band_val a m hl ha.2 hm.2
+  obtain ⟨o1, o2, o3⟩ := bor_val a m hl ha.2 hm.2
+  obtain ⟨n1, n2, n3⟩ := bnot_val a ha.2
+  refine ⟨a1, o1, ?_, ⟨by rw [a2, ha.1], a3⟩, ⟨by rw [o2, ha.1], o3⟩, ⟨by rw [n2, ha.1], n3⟩⟩
+  rw [n1, ha.1]; rfl
+
 /-! ## masks and prefix lengths -/
 
 /-- `from_prefix_length(p)` is the number with the top `p` bits set, for every legal `p` (IPv4) -/
